@@ -638,6 +638,31 @@ fn search(oracle: &str, seed: u64) -> Outcome {
                 None
             }
             // ------------------------------------------------ C12
+            "time_interval_conv" => {
+                domain = "Time::try_from_usecs at and around both ends of the day and at the i64 extremes; From<IntervalDT> for Time and From<Time> for IntervalDT at 0, +-1 us, +-(1 day -1), +-1 day, +-(1 day + 1), whole days, the range limits";
+                exhaustive = false;
+                for v in [i64::MIN, -DAY - 1, -DAY, -DAY + 1, -1, 0, 1, DAY - 1, DAY, DAY + 1, i64::MAX] {
+                    n_eval += 1;
+                    let ok = v >= 0 && v < DAY;
+                    let r = Time::try_from_usecs(v);
+                    let act = match &r { Ok(t) => format!("Ok(usecs={})", t.usecs()), Err(_) => "Err(..)".to_string() };
+                    let exp = if ok { format!("Ok(usecs={})", v) } else { "Err(..)".to_string() };
+                    if act != exp { fail!(format!("Time::try_from_usecs({})", v), exp, act); }
+                }
+                let lim: i64 = 8_640_000_000_000_000_000;
+                for i in [0i64, 1, -1, DAY - 1, -(DAY - 1), DAY, -DAY, DAY + 1, -(DAY + 1), 2 * DAY, -2 * DAY, 7 * DAY + 43_200_000_000, lim, -lim, lim - 1] {
+                    n_eval += 1;
+                    let t = Time::from(IntervalDT::try_from_usecs(i).unwrap());
+                    let e = (i as i128).abs().rem_euclid(DAY as i128) as i64;
+                    if t.usecs() != e { fail!(format!("Time::from(IntervalDT(usecs={}))", i), format!("{}", e), format!("{}", t.usecs())); }
+                }
+                for t in [0i64, 1, 43_200_000_000, DAY - 1] {
+                    n_eval += 1;
+                    let iv = IntervalDT::from(Time::try_from_usecs(t).unwrap());
+                    if iv.usecs() != t { fail!(format!("IntervalDT::from(Time(usecs={}))", t), format!("{}", t), format!("{}", iv.usecs())); }
+                }
+                None
+            }
             "time_add_interval" => {
                 domain = "every second of the day (strided) x boundary intervals";
                 exhaustive = false;
@@ -658,8 +683,24 @@ fn search(oracle: &str, seed: u64) -> Outcome {
             }
             // ------------------------------------------------ C13
             "interval_ctor" => {
-                domain = "constructor validity grid incl. range limits and u32 extremes";
+                domain = "constructor validity grid incl. range limits, u32 extremes and raw counts at the limits +-1 and the integer extremes";
                 exhaustive = false;
+                for m in [i32::MIN, i32::MIN + 1, -2_136_000_001, -2_136_000_000, -1, 0, 1, 2_136_000_000, 2_136_000_001, i32::MAX] {
+                    n_eval += 1;
+                    let ok = (m as i64).abs() <= 2_136_000_000;
+                    let r = catch_unwind(AssertUnwindSafe(|| IntervalYM::try_from_months(m).map(|v| v.months())));
+                    let act = match &r { Ok(Ok(v)) => format!("Ok({})", v), Ok(Err(_)) => "Err(..)".to_string(), Err(_) => "panic".to_string() };
+                    let exp = if ok { format!("Ok({})", m) } else { "Err(..)".to_string() };
+                    if act != exp { fail!(format!("IntervalYM::try_from_months({})", m), exp, act); }
+                }
+                for u in [i64::MIN, i64::MIN + 1, -8_640_000_000_000_000_001, -8_640_000_000_000_000_000, -1, 0, 1, 8_640_000_000_000_000_000, 8_640_000_000_000_000_001, i64::MAX] {
+                    n_eval += 1;
+                    let ok = (u as i128).abs() <= 8_640_000_000_000_000_000;
+                    let r = catch_unwind(AssertUnwindSafe(|| IntervalDT::try_from_usecs(u).map(|v| v.usecs())));
+                    let act = match &r { Ok(Ok(v)) => format!("Ok({})", v), Ok(Err(_)) => "Err(..)".to_string(), Err(_) => "panic".to_string() };
+                    let exp = if ok { format!("Ok({})", u) } else { "Err(..)".to_string() };
+                    if act != exp { fail!(format!("IntervalDT::try_from_usecs({})", u), exp, act); }
+                }
                 for y in [0u32, 1, 177_999_999, 178_000_000, 178_000_001, u32::MAX] { for m in [0u32, 1, 11, 12, 13, u32::MAX] {
                     n_eval += 1;
                     let total = y as i128 * 12 + m as i128;
@@ -905,7 +946,7 @@ fn esc(s: &str) -> String { s.replace('\\', "\\\\").replace('"', "\\\"") }
 fn main() {
     let args: Vec<String> = std::env::args().collect();
     if args.len() >= 2 && args[1] == "list" {
-        println!("date_extract date_from_ymd date_from_days date_add_sub_days date_day_of_week date_add_months ts_add_months last_day_of_month date_trunc date_round ts_trunc ts_round od_trunc od_round ts_split time_tuple time_add_interval interval_ctor od_from_timestamp od_add_days ts_add_days naive_carry parse_grid format_grid and_hms linear_arith mixed_cmp second_accessor scale_f64 fraction_round od_sub_date");
+        println!("date_extract date_from_ymd date_from_days date_add_sub_days date_day_of_week date_add_months ts_add_months last_day_of_month date_trunc date_round ts_trunc ts_round od_trunc od_round ts_split time_tuple time_add_interval interval_ctor od_from_timestamp od_add_days ts_add_days naive_carry parse_grid format_grid and_hms linear_arith mixed_cmp second_accessor scale_f64 fraction_round od_sub_date time_interval_conv");
         return;
     }
     if args.len() >= 3 && args[1] == "search" {
